@@ -42,6 +42,15 @@ impl Monitor for C18 {
 
     fn run_case(&self, _index: u64, seed: u64, tier: Tier, rep: &mut CaseReport) {
         let mut rng = Rng::new(seed);
+        if _index % 16 == 15 {
+            // exactness against the maximum over ALL schedules of a tiny sporadic system
+            let sys = crate::monitors::safety_uni::gen_tiny(&mut rng);
+            rep.sample = Some(jobj! {"exhaustive_small_scope" => true, "tasks" => sys.to_json()});
+            for (policy, pre) in [(Policy::FP, Preempt::Full), (Policy::FP, Preempt::Non), (Policy::FIFO, Preempt::Non)] {
+                crate::monitors::safety_uni::exhaustive_check("C18", &sys, policy, pre, rep, true);
+            }
+            return;
+        }
         let sys = gen_system(&mut rng, tier, true, false);
         let limit = 4000;
         rep.sample = Some(jobj! {"limit" => limit, "tasks" => sys.to_json()});
